@@ -33,6 +33,9 @@ const (
 	ActDup      = "dup"      // answer twice
 	ActClose    = "close"    // close the session instead of answering
 	ActConflict = "conflict" // branch register / lock query: lock conflict
+	// ActRollbackNow (branch register): grant the branch, then roll the global
+	// transaction back at once (as the coordinator's timeout check would)
+	ActRollbackNow = "rollback-now"
 )
 
 type Branch struct {
@@ -422,6 +425,13 @@ func (tc *TC) OnFrame(sess int, f *Frame) {
 		}
 		g.Branches = append(g.Branches, b)
 		resp.BranchID = b.ID
+		if act == ActRollbackNow {
+			tc.reply(sess, f, resp, extra)
+			g.Status = GSRollbacking
+			g.Requests = append(g.Requests, "timeout-rollback")
+			tc.drivePhaseTwo(g, false, nil)
+			return
+		}
 	case TBranchReport:
 		if act == ActFail {
 			fail(ruleMsg(r, "report refused"), 4)
